@@ -50,6 +50,13 @@ type Pkg struct {
 	scanCutN   int
 	scanCutBad string
 	scanDone   bool
+	// over-long vectors (v2: more elements than metrics) are refused (scan.go)
+	scanLongN   int
+	scanLongBad string
+	// semantic tabulation of the v2 part splitter (splitsem.go)
+	resliceDeltas []int // [:r+δ] reslices of the pooled storage seen by the pool typestate (effects.go)
+	splitSemDone  bool
+	splitSemRes   *splitSem
 }
 
 type World struct {
